@@ -472,6 +472,7 @@ static int data_cb(int hook, htp_tx_data_t *d) {
                             int layers = 0, lz = 0; for (htp_decompressor_t *q = dc; q && layers < 100; q = q->next) { layers++; if (((htp_decompressor_gzip_t *) q)->zlib_initialized == HTP_COMPRESSION_LZMA) lz++; }
                             if (s == 1 && cfg->response_decompression_layer_limit > 0 && layers > cfg->response_decompression_layer_limit && layers > 1)
                                 violate(ex, "C07", "C07.too_many_layers", strfmt("tx#%d layers=%d limit=%d", r->ordinal, layers, cfg->response_decompression_layer_limit));
+                            if (s == 1 && lz > cfg->response_lzma_layer_limit) violate(ex, "C07", "C07.too_many_lzma_layers", strfmt("tx#%d lzma layers=%d limit=%d", r->ordinal, lz, cfg->response_lzma_layer_limit));
                             if (layers > r->max_layers) r->max_layers = layers;
                         }
                     }
